@@ -371,8 +371,9 @@ func (pa *pathAnalysis) flow(pred, succ *ssa.BasicBlock, succIdx int, t tuple) (
 	if succ.Dominates(pred) {
 		// back edge: a leaf condition is recomputed in the next iteration, a
 		// variable that held its old value no longer "has the leaf's value"
-		for i := range pa.tracked {
-			if pa.getBool(t, i) == 3 {
+		// (a variable defined outside this loop keeps holding it: nothing recomputes its leaf)
+		for i, ph := range pa.tracked {
+			if pa.getBool(t, i) == 3 && succ.Dominates(ph.Block()) {
 				t = pa.setBool(t, i, 0)
 			}
 		}
